@@ -435,6 +435,7 @@ type c18Loose struct {
 	S string
 	M map[string]string
 	L []string
+	Q string `json:"Q,string"`
 }
 
 // c18Targeted builds documents in which the switch has something to act on.
@@ -443,9 +444,15 @@ func c18Targeted(sw string, r *gen.Rng) *c01Case {
 	ts := []reflect.Type{reflect.TypeOf((*interface{})(nil)).Elem(), reflect.TypeOf(c18Loose{}), reflect.TypeOf([]c18Loose(nil)), reflect.TypeOf(map[string]interface{}(nil))}
 	cs.t = ts[r.Intn(len(ts))]
 	do := gen.DocOpts{MaxDepth: 3, MaxWidth: 4, MaxStr: 12, WS: r.Bool()}
+	onlyQuoted := sw == "UseUnicodeErrors" && r.Chance(1, 3)
 	str := func() string {
 		switch sw {
 		case "UseUnicodeErrors":
+			if onlyQuoted {
+				// the only risky literal of this document is the twice-quoted one
+				qb, _ := json.Marshal(r.ValidString(8))
+				return string(qb)
+			}
 			return `"` + r.EscapedBody(4) + `"`
 		case "ValidateString":
 			return `"` + strings.NewReplacer(`"`, `'`, `\`, `/`).Replace(r.RawString(24)) + `"`
@@ -472,9 +479,27 @@ func c18Targeted(sw string, r *gen.Rng) *c01Case {
 		if sw == "DisallowUnknownFields" && r.Bool() {
 			sb.WriteString(`,` + []string{`"a"`, `"Z"`, `"AA"`, `""`, `"n "`, `"Ax"`}[r.Intn(6)] + `:` + val())
 		}
+		if sw == "UseUnicodeErrors" || r.Chance(1, 3) {
+			// a string field with the `,string` option: the literal sits, quoted once more, inside a string
+			was := onlyQuoted
+			onlyQuoted = false
+			inner := str()
+			onlyQuoted = was
+			if hasLoneSurrogate(inner) {
+				cs.loneInQuoted = true
+			}
+			qb, _ := json.Marshal(inner)
+			sb.WriteString(`,"Q":` + string(qb))
+		}
 		sb.WriteString(`}`)
 		return sb.String()
 	}
+	defer func() {
+		// only the struct destinations have the `,string` field
+		if k := cs.t.Kind(); k != reflect.Struct && !(k == reflect.Slice && cs.t.Elem().Kind() == reflect.Struct) {
+			cs.loneInQuoted = false
+		}
+	}()
 	switch cs.t.Kind() {
 	case reflect.Struct:
 		cs.doc = obj()
@@ -656,7 +681,10 @@ func c18Decode(c *Ctx, i int, r *gen.Rng) {
 			fired = true
 		}
 	case "UseUnicodeErrors":
-		if !hasLoneSurrogate(doc) {
+		if cs.loneInQuoted && !hasLoneSurrogate(doc) {
+			c.Count("unicode_errors_lone_surrogate_only_in_a_twice_quoted_field", 1)
+		}
+		if !hasLoneSurrogate(doc) && !cs.loneInQuoted {
 			if !same() {
 				bad("changes the result for a document without lone surrogate escapes")
 			}
